@@ -1,6 +1,7 @@
 """C13 – async cache under concurrency: real `haiway.cache` on async functions/methods vs `hwmodel acache`.
 
-Case (one line):  <limit> <expiration|-> <f|m> op*
+Case (one line):  <limit> <expiration|-> <f|m|F|M> op*      (F / M: every caller makes its call inside its own
+                  `async with ctx.scope(...)` – nothing may change: the invocation belongs to no caller's scope)
   call:<key>        create the next caller task of the cached coroutine function (numbered in creation order)
   cancel:<caller>   cancel that caller task
   fin:<inv>:<o|x>   open the gate the invocation <inv> of the wrapped coroutine is waiting on (result / exception)
@@ -45,7 +46,7 @@ class Boom(Exception):
 
 def parse_case(case: str):
     toks = case.split()
-    if len(toks) < 3 or not toks[0].isdigit() or toks[2] not in ("f", "m"):
+    if len(toks) < 3 or not toks[0].isdigit() or toks[2] not in ("f", "m", "F", "M"):
         return None
     if toks[1] == "-":
         exp = None
@@ -74,6 +75,8 @@ def run_real(case: str) -> str:
     if parsed is None:
         return "bad-case"
     limit, exp, variant, ops = parsed
+    scoped = variant.isupper()
+    variant = variant.lower()
     loop = vloop.new_loop()
     try:
         t0 = vloop.CLOCK.now
@@ -107,6 +110,14 @@ def run_real(case: str) -> str:
 
             holder = Holder()
             make = holder.m
+        if scoped:
+            from haiway import ctx
+
+            plain = make
+
+            async def make(key):      # noqa: F811 - the caller's own scope around the call
+                async with ctx.scope("caller"):
+                    return await plain(key)
 
         callers: list[asyncio.Task] = []
         snaps: list[str] = []
@@ -312,7 +323,8 @@ def corpus():
         "1 5 f call:0 call:0 run adv:6 call:0 cancel:1 run fin:1:x run call:0 run",
         "2 - f call:0 call:0 call:0 call:0 run cancel:0 cancel:1 cancel:2 fin:0:o run",
     ]
-    return base + [c.replace(" f ", " m ", 1) for c in base[:6] + base[9:10] + base[13:15]]
+    return base + [c.replace(" f ", " m ", 1) for c in base[:6] + base[9:10] + base[13:15]] \
+        + [c.replace(" f ", " F ", 1) for c in base] + [c.replace(" f ", " M ", 1) for c in base[:6]]
 
 
 def random_case(rng) -> str:
@@ -375,8 +387,20 @@ def generate(rng, tier):
     else:
         yield from enumerate_schedules(7)
         n = 150000
-    for _ in range(n):
-        yield random_case(rng)
+    for i in range(n):
+        c = random_case(rng)
+        if i % 5 == 4:      # every caller inside its own scope
+            t = c.split(" ")
+            t[2] = t[2].upper()
+            c = " ".join(t)
+        yield c
+
+
+def model_input(case: str, out: str) -> str:
+    t = case.split(" ")
+    if len(t) > 2:
+        t[2] = t[2].lower()      # the model never sees where the callers stand
+    return " ".join(t)
 
 
 def nontrivial(case: str, out: str) -> bool:
